@@ -414,7 +414,7 @@ def check_C03(tier, seed, res, replay=None):
     if replay:
         return do_replay(res, rd, replay)
     rng = random.Random(seed)
-    cases = single_cases(tier, rng, "trim", 0.5)
+    cases = single_cases(tier, rng, "trim", 0.5, nums=("id", "rev", "sparse", "perm", "huge"))
     for k in load_killers("trim.ndjson"):
         cases.append(dict(k, op="trim"))
     res.count_cases(cases, nontrivial_trim)
@@ -487,7 +487,7 @@ def check_C05(tier, seed, res, replay=None):
     if replay:
         return do_replay(res, rd, replay)
     rng = random.Random(seed)
-    cases = single_cases(tier, rng, "reduce", 0.5, nrand_quick=12000, nrand_thorough=60000, bigger=True)
+    cases = single_cases(tier, rng, "reduce", 0.5, nrand_quick=12000, nrand_thorough=60000, bigger=True, nums=("id", "rev", "sparse", "perm", "huge"))
     for k in load_killers("reduce.ndjson"):
         cases.append(dict(k, op="reduce"))
     nt = lambda c: vlib.ta_nonempty(c["A"]) and len(vlib.ta_states(c["A"])) >= 2
@@ -552,10 +552,15 @@ def reindex_extra(c, rng):
     st = sorted(gen.states_of(c["A"]))
     how = rng.choice(["weak", "weak", "fctor", "dst", "collapse", "collapse"])
     c["how"] = how
-    kind = rng.choice(["inj", "merge", "ident", "sparse"])
-    targets = {"inj": None, "merge": [0, 1], "ident": None, "sparse": None}[kind]
+    kind = rng.choice(["inj", "merge", "ident", "sparse", "perm"])
+    targets = {"inj": None, "merge": [0, 1], "ident": None, "sparse": None, "perm": None}[kind]
     m = {}
-    if kind == "inj":
+    if kind == "perm":
+        # a permutation of the automaton's own states (not idempotent: images land on numbers that are in use)
+        p = list(st)
+        rng.shuffle(p)
+        m = {q: p[i] for i, q in enumerate(st)}
+    elif kind == "inj":
         p = list(range(len(st)))
         rng.shuffle(p)
         m = {q: p[i] + 20 for i, q in enumerate(st)}
@@ -577,6 +582,9 @@ def reindex_extra(c, rng):
     if how == "dst":
         D, _ = gen.rand_ta(rng, nq=2, nrules=rng.choice([0, 1, 2]), alpha=[s for s in gen.syms_of(c["A"])] or [["a", 0]])
         c["D"] = D
+        if rng.random() < 0.5:
+            c["D"] = {"fin": list(c["A"]["fin"]), "rules": [list(r) for r in c["A"]["rules"]]}
+            c["dshare"] = True      # the destination is a copy of the source sharing its storage (value: D = A)
     if how in ("fctor", "dst") and rng.random() < 0.3:
         c["addFinal"] = False
     c["mapkind"] = kind
@@ -612,7 +620,7 @@ def check_C15(tier, seed, res, replay=None):
     if replay:
         return do_replay(res, rd, replay)
     rng = random.Random(seed)
-    cases = single_cases(tier, rng, "witness", 0.15)
+    cases = single_cases(tier, rng, "witness", 0.15, nums=("id", "rev", "sparse", "perm", "huge"))
     nt = lambda c: vlib.ta_nonempty(c["A"])
     res.count_cases(cases, nt)
     res.add_samples([c for c in cases if nt(c)][:3])
